@@ -163,6 +163,11 @@ pub fn run(case: &Value) -> Vec<Value> {
         let p = op.get("p").map(|v| usize::try_from(as_u64(v)).expect("p"));
         let t = op.get("t").map(|v| usize::try_from(as_u64(v)).expect("t"));
         let _ = take_log();
+        if t.is_some_and(|t| t >= ids.len()) || p.is_some_and(|p| p >= pools.len()) {
+            // a task or pool that does not exist (yet): refused by the harness itself
+            obs.push(json!("bad"));
+            continue;
+        }
         let o: Value = match kind {
             "submit" => {
                 let tix = ids.len();
